@@ -230,6 +230,17 @@ def main(tier: str, seed: int) -> int:
                 sig = {'kind': 'rejected', 'W': t['W'], 'k': t['k']}
             v.violation(f'{msg} on {json.dumps(t)[:300]}', sig,
                         replay={'tuple': tp})
+    # every rank is its own interpreter: results must not depend on the string
+    # hash seed (tie-rich tuples with >= 2 layers)
+    def ties(tp):
+        tot = [sum(x['c'] for x in l['fs']) for l in tp['t']['work']]
+        return len(tot) >= 2 and len(set(tot)) < len(tot) and tp['t']['W'] <= 8
+    tt = [tp for tp in todo if ties(tp)]
+    import random as _r
+    _r.Random(seed).shuffle(tt)
+    msg = assign.cross_interpreter(tt[:150 if tier == 'quick' else 2000])
+    if msg:
+        v.violation(msg, {'kind': 'hashseed'})
     # acceptance through the constructors for all pairs in the wide scope
     apairs = [(W, k) for W in range(1, accw + 1) for k in divisors(W)]
     acc = pmap(acceptance_chunk, [apairs[i::32] for i in range(32)])
